@@ -29,6 +29,12 @@ func (p *P0x8800) ReplyProtocol() consts.JT808CommandType {
 
 func (p *P0x8800) Parse(jtMsg *jt808.JTMessage) error {
 	body := jtMsg.Body
+	if len(body) == 4 { // 收到全部数据包时 没有重传包总数和重传包ID列表 (Encode也是这样编码的)
+		p.MultimediaID = binary.BigEndian.Uint32(body[0:4])
+		p.AgainPackageCount = 0
+		p.AgainPackageList = nil
+		return nil
+	}
 	if len(body) < 5 {
 		return protocol.ErrBodyLengthInconsistency
 	}
